@@ -79,6 +79,10 @@ pub fn example_record() -> Enr<k256::ecdsa::SigningKey> {
 }
 
 pub fn apply_op<K: EnrKey>(e: &mut Enr<K>, op: &Op, signer: &K, nonsigner: &K) -> Result<RetObs, enr::Error> {
+    apply_op_alt(e, op, signer, nonsigner, None)
+}
+
+pub fn apply_op_alt<K: EnrKey>(e: &mut Enr<K>, op: &Op, signer: &K, nonsigner: &K, alt: Option<&K>) -> Result<RetObs, enr::Error> {
     let raw = |o: Option<Bytes>| o.map(|b| b.to_vec());
     Ok(match op {
         Op::SetSeq(n) => {
@@ -149,6 +153,7 @@ pub fn apply_op<K: EnrKey>(e: &mut Enr<K>, op: &Op, signer: &K, nonsigner: &K) -
             let pk = match which {
                 PkArg::OfSigner => signer.public(),
                 PkArg::OfNonSigner => nonsigner.public(),
+                PkArg::OtherScheme => alt.unwrap_or(nonsigner).public(),
             };
             e.set_public_key(&pk, signer)?;
             RetObs::Unit
@@ -644,6 +649,17 @@ fn run_history_inner<KK: KeyKind>(ctx: &mut Ctx, h: &History, opts: &RunOpts) ->
     let ms_other = msigner(h.scheme, &other_ref);
     let own_k = KK::make(h.scheme, &own_ref.secret);
     let other_k = KK::make(h.scheme, &other_ref.secret);
+    // CombinedKey histories also get a key of the other scheme (as an ARGUMENT, never as a signer)
+    let alt_scheme = match h.scheme {
+        Scheme::Secp => Scheme::Ed,
+        _ => Scheme::Secp,
+    };
+    let (alt_k, ms_alt) = if KK::KT == crate::refimpl::decode::KT::Comb && cfg!(feature = "ed") {
+        let rk = RefKey::new(alt_scheme, secret_from(alt_scheme, 0xa17));
+        (Some(KK::make(alt_scheme, &rk.secret)), Some(msigner(alt_scheme, &rk)))
+    } else {
+        (None, None)
+    };
     KK::arm(&own_k, None);
     KK::arm(&other_k, None);
     match h.fault {
@@ -795,9 +811,9 @@ fn run_history_inner<KK: KeyKind>(ctx: &mut Ctx, h: &History, opts: &RunOpts) ->
         let opn = step.op.name();
         let pre = cur.clone();
         let pre_pairs: Pairs = pre.pairs.iter().cloned().collect();
-        let mut pred = predict(pre.seq, &pre_pairs, &step.op, &ModelCtx { signer: ms_s, nonsigner: ms_n });
+        let mut pred = predict(pre.seq, &pre_pairs, &step.op, &ModelCtx { signer: ms_s, nonsigner: ms_n, alt: ms_alt.as_ref() });
         let before = guard(|| enr.clone()).ok();
-        let res = guard(|| apply_op(&mut enr, &step.op, signer_k, nonsigner_k));
+        let res = guard(|| apply_op_alt(&mut enr, &step.op, signer_k, nonsigner_k, alt_k.as_ref()));
         let fired = KK::take_fired(signer_k);
         if fired {
             pred.must.push(Cause::SignerFault);
